@@ -508,6 +508,46 @@ pub fn run(ctx: &Ctx) {
         ctx.violation("max-size-exceeded:reference", "reference types under-estimate".into(), 0, json!({"type": "&u64 / &mut i128"}));
     }
     r.types += 2;
+    // thorough: the ENTIRE domains of the 32-bit leaves, inside the composite shapes whose bound is a sum
+    // or maximum of the leaf's (every u32 / i32 / f32 bit pattern / char, alone, in an Option, in a pair and
+    // in a Result)
+    if !ctx.quick() {
+        use rayon::prelude::*;
+        use std::sync::atomic::{AtomicU64, Ordering};
+        let n = AtomicU64::new(0);
+        fn len_of<T: Serialize>(v: &T) -> usize {
+            let mut buf = [0u8; 32];
+            postcard::to_slice(v, &mut buf).map(|o| o.len()).unwrap_or(usize::MAX)
+        }
+        macro_rules! whole {
+            ($name:literal, $t:ty, $mk:expr) => {{
+                let (m0, m1, m2, m3) = (<$t as MaxSize>::POSTCARD_MAX_SIZE, <Option<$t> as MaxSize>::POSTCARD_MAX_SIZE, <($t, u8) as MaxSize>::POSTCARD_MAX_SIZE, <Result<$t, u64> as MaxSize>::POSTCARD_MAX_SIZE);
+                (0u32..65536).into_par_iter().for_each(|hi| {
+                  let mut local = 0u64;
+                  for lo in 0u32..65536 {
+                    let bits = (hi << 16) | lo;
+                    let mk = $mk;
+                    let v: Option<$t> = mk(bits);
+                    if let Some(v) = v {
+                        let l = [len_of(&v), len_of(&Some(v)), len_of(&(v, 255u8)), len_of(&Ok::<$t, u64>(v))];
+                        if l[0] > m0 || l[1] > m1 || l[2] > m2 || l[3] > m3 {
+                            ctx.violation(concat!("max-size-exceeded:whole-domain:", $name), format!("{} value with bit pattern {:#x}: encoded lengths {:?} against maxima {:?}", $name, bits, l, [m0, m1, m2, m3]), bits as u64, json!({"type": $name, "bits": bits}));
+                        }
+                        local += 4;
+                    }
+                  }
+                  n.fetch_add(local, Ordering::Relaxed);
+                });
+            }};
+        }
+        whole!("u32", u32, |b: u32| Some(b));
+        whole!("i32", i32, |b: u32| Some(b as i32));
+        whole!("f32", f32, |b: u32| Some(f32::from_bits(b)));
+        whole!("char", char, char::from_u32);
+        let n = n.load(Ordering::Relaxed);
+        r.evals += n;
+        ctx.class("whole-domain:u32,i32,f32,char x {T, Option<T>, (T,u8), Result<T,u64>}", n);
+    }
     ctx.add_evals(r.evals);
     ctx.add_nontrivial(r.evals);
     ctx.class("types", r.types);
